@@ -12,6 +12,7 @@ type Action struct {
 	V    uint64    `json:"v,omitempty"`
 	Hold *HoldRule `json:"hold,omitempty"`
 	Byz  *ByzSpec  `json:"byz,omitempty"`
+	D    int       `json:"d,omitempty"` // timeout / sync: the main loop handles the event now (contexts are cancelled), the worker picks it up only after D further deliveries to that node
 }
 
 // Apply executes one action (a no-op if it is not applicable in the current state) and records it in the trace.
@@ -47,7 +48,7 @@ func (w *World) Apply(a Action) {
 			w.deliver(m)
 		}
 	case "timeout":
-		w.timeout(a.Node)
+		w.timeoutD(a.Node, a.D)
 	case "timeouts":
 		for i := 0; i < w.Cfg.N && w.Viol == nil; i++ {
 			if a.Mask>>uint(i)&1 == 1 {
@@ -69,7 +70,7 @@ func (w *World) Apply(a Action) {
 	case "release":
 		w.Holds = nil
 	case "sync":
-		w.sync(a.Node, a.N, a.H)
+		w.syncD(a.Node, a.N, a.H, a.D)
 	case "catchup": // a block-sync service: every live correct node in Mask that is behind gets the block+proof of its current height from a correct node that committed it
 		for i := 0; i < w.Cfg.N && w.Viol == nil; i++ {
 			if a.Mask>>uint(i)&1 == 0 || !w.IsCorrect(i) || w.Nodes[i].Crashed {
